@@ -288,6 +288,8 @@ def run(c, chk):
         sub.done('include stack bound')
         # R2.18: no source - the empty one included - makes the scanner spin: its buffers have a positive size (rule R13.16 of C13)
         _c13.buffer_sizes(c, chk, rid='R2.18')
+    local_arrays_in_bounds(c, chk)
+    moves_within_strings(c, chk)
     slot_width(c, chk)
     # R2.14: a 7-bit scanner indexes past its table rows for every byte >= 0x80 (the rule of C03 R3.8)
     from . import c03 as _c03
@@ -1050,3 +1052,167 @@ def derives(f, a, phi, depth=0):
     if d.op == 'phi':
         return all(derives(f, x, phi, depth + 1) for x in d.ops)
     return False
+
+
+LOCAL_WRITERS = {'memcpy': 2, 'memmove': 2, 'strncpy': 2, 'memset': 2, 'snprintf': 1, 'vsnprintf': 1, 'fgets': 1, 'strlcpy': 2,
+                 'llvm.memcpy.p0i8.p0i8.i64': 2, 'llvm.memmove.p0i8.p0i8.i64': 2, 'llvm.memset.p0i8.i64': 2}
+LOCAL_UNBOUNDED = ('strcpy', 'strcat', 'sprintf', 'vsprintf', 'gets')
+
+
+def local_arrays_in_bounds(c, chk, rid='R2.19', only_funcs=None):
+    """a local array of fixed size is written only inside its bounds: element stores at a constant position below the size
+    or at a position the path has bounded; block writers (memcpy, snprintf, ...) with start + length <= size, where a
+    length of the form "size - used - k" also needs used bounded (the subtraction is unsigned: it wraps)"""
+    import re as _re
+    from .. import bufsize as bs, failpaths as fp
+    chk.rule(rid, 'every write into a local byte array of fixed size lies inside the array: position and length are constants that fit or were bounded on the path (a length "size - used" needs "used" bounded, it wraps otherwise)')
+    ex = sym.Explorer(c.modules, max_visits=2, mod_sets=c.mod_sets, max_paths=30000)
+    narr = nw = 0
+    bad = None
+
+    def size_of(base, f):
+        reg = base[1].split('@')[0]
+        fn_ = c.func(base[1].split('@')[1]) if '@' in base[1] else f
+        d = fn_.defs.get(reg) if fn_ is not None else None
+        m = _re.match(r'^\[(\d+) x i8\]$', (d.srcty or '').strip()) if d is not None and d.op == 'alloca' else None
+        return int(m.group(1)) if m else None
+
+    def upper(t, p):
+        """largest value the path allows for the term (None: unbounded)"""
+        ub = None
+        for cn, tr, _ in p.assume:
+            if cn[0] != 'icmp':
+                continue
+            for a, b, pred in ((cn[2], cn[3], cn[1]), (cn[3], cn[2], {'ult': 'ugt', 'ule': 'uge', 'ugt': 'ult', 'uge': 'ule', 'slt': 'sgt', 'sle': 'sge', 'sgt': 'slt', 'sge': 'sle'}.get(cn[1], cn[1]))):
+                if not sym.is_const(b) or sym.norm(bs.strip(a)) != t:
+                    continue
+                k = b[1]
+                u = None
+                if pred in ('ult', 'slt') and tr:
+                    u = k - 1
+                elif pred in ('ule', 'sle') and tr:
+                    u = k
+                elif pred in ('ugt', 'sgt') and not tr:
+                    u = k
+                elif pred in ('uge', 'sge') and not tr:
+                    u = k - 1
+                elif pred == 'eq' and tr:
+                    u = k
+                if u is not None:
+                    ub = u if ub is None else min(ub, u)
+        return ub
+
+    def maxval(l, p):
+        tot = l.const
+        for t, co in l.terms.items():
+            if co > 0:
+                u = upper(t, p)
+                if u is None:
+                    return None
+                tot += co * u
+        return tot          # (terms with a negative coefficient are at least 0)
+
+    def minval(l, p):
+        tot = l.const
+        for t, co in l.terms.items():
+            if co < 0:
+                u = upper(t, p)
+                if u is None:
+                    return None
+                tot += co * u
+        return tot
+
+    for m_ in c.modules:
+        for f in m_.funcs.values():
+            if f.name in c.unknown_funcs or (only_funcs is not None and f.name not in only_funcs):
+                continue
+            arrs = [i for g in c.deep_funcs(f) for i in g.instrs() if i.op == 'alloca' and _re.match(r'^\[(\d+) x i8\]$', (i.srcty or '').strip())]
+            if not arrs:
+                continue
+            narr += len(arrs)
+            for p in ex.explore(f):
+                for e in p.events:
+                    if e.kind == 'store':
+                        ptr, ln, what = e.addr, bs.Lin(1), 'stores'
+                    elif e.kind == 'call' and e.name in LOCAL_WRITERS and e.args and len(e.args) > LOCAL_WRITERS[e.name]:
+                        ptr, ln, what = e.args[0], bs.lin(e.args[LOCAL_WRITERS[e.name]]), '%s() writes' % e.name.split('.p0')[0]
+                    elif e.kind == 'call' and e.name in LOCAL_UNBOUNDED and e.args:
+                        ptr, ln, what = e.args[0], None, '%s() writes' % e.name
+                        if len(e.args) > 1 and e.name == 'strcpy' and e.args[1][0] == 'str':
+                            ln = bs.Lin(len(e.args[1][1]) + 1)
+                    else:
+                        continue
+                    if ptr[0] not in ('idx', 'alloca', 'bin'):
+                        continue
+                    base, off = bs.split_ptr(ptr)
+                    if base[0] != 'alloca':
+                        continue
+                    N = size_of(base, f)
+                    if N is None:
+                        continue
+                    nw += 1
+                    why = None
+                    if off is None or ln is None:
+                        why = 'at a position or over a length that is not a bounded quantity'
+                    else:
+                        lo = minval(ln, p)
+                        hi = maxval(off.add(ln), p)
+                        if lo is None or lo < 0:
+                            why = 'over the length %s, which wraps around when what is subtracted exceeds it: nothing on the path bounds that quantity' % ln
+                        elif hi is None:
+                            why = 'up to position %s, which nothing on the path bounds' % off.add(ln)
+                        elif hi > N:
+                            why = 'up to position %d' % hi
+                    if why and bad is None:
+                        bad = (f, p, e, N, what, why)
+    if bad is not None:
+        f, p, e, N, what, why = bad
+        chk.fail(rid, 'local-array-overrun:%s' % f.name, c.where(e.ins), '%s() %s into a local array of %d bytes %s (%s)' % (f.name, what, N, why, fp.cond_text(p, 4)))
+    else:
+        chk.ok(rid, '%d local byte arrays, %d writes into them' % (narr, nw), 'all inside the arrays' if narr else 'the library keeps no text in arrays of fixed size', sample=True, nontrivial=bool(narr))
+
+
+def moves_within_strings(c, chk, rid='R2.20'):
+    """a block move whose length was measured with strlen() reads no byte behind the terminator of the string it was measured
+    on: source position + length <= position measured + strlen + 1 (the copies the library works on are exactly as long as
+    their text, the byte after the terminator is not theirs)"""
+    from .. import bufsize as bs, failpaths as fp
+    chk.rule(rid, 'a memmove()/memcpy() whose length comes from strlen() of the same string ends at its terminator at the latest: source offset + length <= measured offset + strlen + 1')
+    ex = sym.Explorer(c.modules, max_visits=2, mod_sets=c.mod_sets, max_paths=30000)
+    MOVES = ('memmove', 'memcpy', 'llvm.memmove.p0i8.p0i8.i64', 'llvm.memcpy.p0i8.p0i8.i64')
+    n = 0
+    bad = None
+    for f in c.confuse.funcs.values():
+        if f.name in c.unknown_funcs or not any(True for m_ in MOVES for _ in c.deep_calls(f, m_)):
+            continue
+        for p in ex.explore(f):
+            for e in p.events:
+                if not (e.kind == 'call' and e.name in MOVES and e.args and len(e.args) > 2):
+                    continue
+                ln = bs.lin(e.args[2])
+                if ln is None:
+                    continue
+                base, off = bs.split_ptr(e.args[1])
+                if off is None:
+                    continue
+                for t, co in ln.terms.items():
+                    if not (t[0] == 'call' and t[1] == 'strlen' and co == 1):
+                        continue
+                    meas = [e2 for e2 in p.events if e2.kind == 'call' and e2.name == 'strlen' and sym.norm(e2.res) == t and e2.args]
+                    if not meas:
+                        continue
+                    b2, o2 = bs.split_ptr(meas[0].args[0])
+                    if o2 is None or sym.norm(b2) != sym.norm(base):
+                        continue
+                    n += 1
+                    end = off.add(ln)
+                    limit = o2.add(bs.Lin(1, {t: 1}))
+                    if not end.le(limit) and bad is None:
+                        bad = (f, p, e, end, limit)
+    if bad is not None:
+        f, p, e, end, limit = bad
+        chk.fail(rid, 'move-past-terminator:%s' % f.name, c.where(e.ins), '%s() moves bytes up to position %s of a string whose terminator is at position %s: it reads behind the terminator, '
+                 'one byte past the end of a copy that is exactly as long as its text (%s)' % (f.name, end, limit.add(bs.Lin(-1)), fp.cond_text(p, 4)))
+    elif n:
+        chk.ok(rid, '%d moves measured with strlen()' % n, 'each ends at the terminator at the latest', sample=True)
+    chk.floor('%s moves measured with strlen()' % rid, n, 1)
